@@ -1,8 +1,113 @@
-"""Replay of decoder-core obligations (placeholder until the witness generator / reference semantics are wired in):
-table and frame obligations are observations on the real code; for the others no concrete input is built yet."""
+"""Replay of decoder-core obligations against the real code through the public API.
+
+A refuted obligation names a unit (walker, type, mode).  The replay generates concrete inputs relevant to that unit with the
+witness generator (well-formed encodings + single faults), runs the real Binary.marshal and compares with the reference
+semantics (spec/refsem.py).  A disagreement is the concrete failing input.  If none is found among the candidates the
+violation is still reported (the obligation passed on the unchanged tree and fails now), marked no-failing-input-found."""
+from __future__ import annotations
+
+import os
+import random
+import sys
+
+from pyvc.harness import ROOT
+
+sys.path.insert(0, os.path.join(ROOT, "spec"))
 
 
-def replayer(obd):
+def _types_for(name):
+    import crosscheck as X
+
+    L = X.layout()
+    parts = name.split("/")
+    mode = "warn" if "/warn/" in name or name.endswith("/warn") else "strict"
+    modes = [mode]
+    out = []  # (tname, ccn, enc)
+    head = parts[0]
+    if head == "LEAF" and len(parts) > 1:
+        t = parts[1]
+        out.append((t, None, False))
+        # and something that contains it
+        for sn, ent in L["structs"].items():
+            if any(f["type"] == t for f in ent["fields"]):
+                out.append((sn, None, False))
+                break
+        out += [("Command", None, False)]
+    elif head == "WALK" and len(parts) > 2:
+        kind, key = parts[1], parts[2]
+        if kind == "tpms":
+            if key.startswith("area:"):
+                _, table, ccn = key.split(":")
+                enc = "encrypted" in parts
+                out.append(("Command" if table.startswith("cmd") else "Response", ccn, enc))
+            else:
+                out.append((key, None, False))
+        elif kind == "tpm2b":
+            out.append((key, None, False))
+            out.append(("Command", None, False))
+        elif kind == "tpmu":
+            for sn, ent in L["structs"].items():
+                if any(f["type"] == key for f in ent["fields"]):
+                    out.append((sn, None, False))
+            for ccn, c in L["commands"].items():
+                for tb in ("cmd_params", "rsp_params"):
+                    if any(f["type"] == key for f in c[tb]["fields"]):
+                        out.append(("Command" if tb == "cmd_params" else "Response", ccn, False))
+        elif kind in ("array", "bytesized"):
+            e = key
+            for sect in ("structs", "tpm2b"):
+                for sn, ent in L[sect].items():
+                    if any(f["type"] == f"list[{e}]" for f in ent["fields"]) and sn != "TPM2B_ENCRYPTED_PARAM":
+                        out.append((sn, None, False))
+            out = out[:6] + [("Command", None, False), ("Response", None, False)]
+        elif kind == "command":
+            out.append(("Command", key if key in L["commands"] else None, False))
+        elif kind == "response":
+            out.append(("Response", key if key in L["commands"] else None, "encrypted" in parts))
+        elif kind == "stream":
+            out.append(("CommandResponseStream", None, False))
+        elif kind == "dispatch":
+            out += [("Command", None, False), ("Response", None, False), ("TPMT_PUBLIC", None, False), ("TPM2B_PUBLIC", None, False), ("TPML_PCR_SELECTION", None, False), ("UINT16", None, False)]
+    elif head == "PUMP":
+        out += [("Command", None, False), ("CommandResponseStream", None, False), ("TPM2B_DIGEST", None, False), ("UINT32", None, False)]
+        modes = ["strict", "warn"] if mode == "strict" else ["warn"]
+    elif head == "REGION":
+        out += [("Command", None, False), ("Response", None, False), ("TPM2B_PUBLIC", None, False), ("TPM2B_SENSITIVE_CREATE", None, False), ("TPM2B_DIGEST", None, False)]
+    if not out:
+        out = [("Command", None, False), ("Response", None, False)]
+    return out, modes
+
+
+def replayer(obd, n=10, seed=1):
     if obd.get("kind") in ("table", "frame") and obd.get("backend") == "evaluation":
         return {"reproduced": True, "detail": obd.get("detail")}
-    return {"reproduced": None, "note": "no concrete input built for this obligation"}
+    name = obd["name"]
+    if name.startswith("C16/"):
+        from checks import c16
+
+        return c16.replayer(obd)
+    import crosscheck as X
+
+    rng = random.Random(seed)
+    try:
+        targets, modes = _types_for(name)
+    except Exception as e:
+        return {"reproduced": None, "note": f"no replay target: {e!r}"}
+    tried = 0
+    for tname, ccn, enc in targets:
+        try:
+            cands = X.candidates(tname, rng, n, True, ccn=ccn, enc=enc)
+        except Exception as e:
+            continue
+        for label, data, cc, e in cands:
+            for mode in modes:
+                tried += 1
+                try:
+                    r = X.compare(tname, data, cc, e, mode)
+                except Exception as ex:
+                    r = {"what": "comparison crashed", "detail": repr(ex)[:200]}
+                if r:
+                    return {"reproduced": True, "input": {"tpm_type": tname, "hex": data.hex(), "command_code": cc, "parameter_encryption": e, "mode": mode, "how_generated": label},
+                            "expected_by_reference_semantics": r.get("ref_error"), "actual": r.get("real_error") or r.get("real"), "difference": f"{r['what']}: {r['detail']}"[:600],
+                            "candidates_tried": tried}
+    return {"reproduced": None, "note": f"{tried} generated inputs around the unit agree with the reference semantics", "candidates_tried": tried}
